@@ -34,6 +34,8 @@ def replay(ctx, path):
     fam = obj.get("replay_family", "eval")
     if fam == "eval":
         return evalfam.replay(ctx, obj)
+    if fam == "steps":
+        return evalfam.replay_steps(ctx, obj)
     if fam == "builtins":
         return builtinfam.replay(ctx, obj)
     if fam == "crash":
